@@ -268,7 +268,7 @@ def put(kw, idx, val):
     kw[idx[-1]] = val
 
 
-def make_case(rng, shape=None, axis=None, kind=None, noalias=False):
+def make_case(rng, shape=None, axis=None, kind=None, noalias=False, sparse=False):
     fs, lo, hi = gen.gen_config(rng, small=True)
     if shape is None:
         shape = (int(rng.integers(1, 5)), int(rng.integers(1, 5)))
@@ -292,6 +292,15 @@ def make_case(rng, shape=None, axis=None, kind=None, noalias=False):
         kw = None
     elif kind == '1d':
         kw = [epoch_opts(rng, lo) for _ in range(n0 if axis == 0 else n1)]
+        if sparse or rng.random() < 0.5:
+            # entries that leave settings out (the documented defaults apply to THAT slice, whatever its neighbours say)
+            if sparse and len(kw) >= 2:
+                kw[0]['center_extrema'] = 'trough'
+                kw[0]['threshold_kwargs'] = dict(kw[0]['threshold_kwargs'], amp_fraction_threshold=0.6, min_n_cycles=2)
+            for e in kw[1:] if sparse else kw:
+                for k in list(e):
+                    if sparse or rng.random() < 0.45:
+                        del e[k]
     else:
         if axis == (0, 1):
             kw = [[opts_for(rng, lo) for _ in range(n1)] for _ in range(n0)]
@@ -342,6 +351,12 @@ def run(sh):
         if (len(classes) + i) % sh.nshards == sh.shard:
             c = make_case(rng, shape=shape, axis=(0, 1), kind='2d', noalias=True)
             sh.note('distinct_2d_option_grid_on_unequal_extents')
+            guarded(sh, run_one, sh, c, 'class_cover')
+    # in every run: per-slice lists whose later entries leave settings out after a first entry with non-default settings
+    for i, (shape, ax) in enumerate([((3, 2), 0), ((2, 3), 1)]):
+        if (len(classes) + 2 + i) % sh.nshards == sh.shard:
+            c = make_case(rng, shape=shape, axis=ax, kind='1d', noalias=True, sparse=True)
+            sh.note('per_slice_list_with_entries_that_omit_settings')
             guarded(sh, run_one, sh, c, 'class_cover')
     # every shard: a group object that receives its options through its attributes
     c = make_case(rng, shape=[(2, 2), (2, 3), (3, 2), (1, 3)][sh.shard % 4], axis=[0, 1, (0, 1)][sh.shard % 3], kind='dict')
